@@ -761,10 +761,10 @@ matrix_subscr(matrix* self, PyObject* args)
   /* handle normal subscripts (two integers) separately */
 #if PY_MAJOR_VERSION >= 3
   if (PyLong_Check(argI) && PyLong_Check(argJ)) {
-    int i = PyLong_AS_LONG(argI), j = PyLong_AS_LONG(argJ);
+    int_t i = PyLong_AS_LONG(argI), j = PyLong_AS_LONG(argJ);
 #else
   if (PyInt_Check(argI) && PyInt_Check(argJ)) {
-    int i = PyInt_AS_LONG(argI), j = PyInt_AS_LONG(argJ);
+    int_t i = PyInt_AS_LONG(argI), j = PyInt_AS_LONG(argJ);
 #endif
     if ( OUT_RNG(i, self->nrows) || OUT_RNG(j, self->ncols))
       PY_ERR(PyExc_IndexError, "index out of range");
